@@ -203,6 +203,7 @@ def c11_vocab(run):
     rf_vocab.rf75(run)
     rf_vocab.rf82(run)
     run.min_instances('RF82', 40)
+    rf_vocab.rf96(run)
     rf_bounds.rf88(run)
 
 
@@ -390,6 +391,7 @@ def c20_rf7h(run):
 def c03_rf11(run):
     rf_templates.rf11(run)
     run.min_instances('RF11', 40)
+    rf_templates.rf11a(run)
     rf_dispatch.rf7g(run)
     run.min_instances('RF7g', 60)
     rf_code.rf4d(run)
